@@ -119,10 +119,10 @@ func TestWorker(t *testing.T) {
 		fmt.Printf("DONE idx=%d\n", idx)
 		// goroutines of finished bubbles stay parked for the life of the process (they must never touch a later
 		// run), so a worker's memory only grows: hand over to a fresh process before it gets large
-		if *fPlan == "" && i%8 == 7 {
+		if *fPlan == "" {
 			var ms runtime.MemStats
 			runtime.ReadMemStats(&ms)
-			if ms.Sys > 1500<<20 {
+			if ms.Sys > 1200<<20 {
 				fmt.Printf("RECYCLE next=%d\n", i+1)
 				os.Stdout.Sync()
 				break
